@@ -214,7 +214,27 @@ fn collect_types(items: &[syn::Item], types: &mut Vec<String>, consts: &mut Vec<
                     syn::Type::Path(p) => p.path.segments.last().map(|s| s.ident.to_string()).unwrap_or_default(),
                     _ => String::new(),
                 };
-                impls.push(format!("{{\"self_ty\":{},\"name\":{},\"trait\":{},\"generics\":{},\"wheres\":{}}}", js(&toks(&i.self_ty)), js(&name), js(&tr), gp, gw));
+                // associated types of the impl: `type Exec = ExecMsg<T2, T1>` -> {"n":"Exec","head":"ExecMsg","args":["T2","T1"]}
+                let assoc: Vec<String> = i.items.iter().filter_map(|it| match it {
+                    syn::ImplItem::Type(t) => {
+                        let (head, args) = match &t.ty {
+                            syn::Type::Path(p) => {
+                                let last = p.path.segments.last();
+                                let head = last.map(|s| s.ident.to_string()).unwrap_or_default();
+                                let args: Vec<String> = match last.map(|s| &s.arguments) {
+                                    Some(syn::PathArguments::AngleBracketed(a)) => a.args.iter().map(|x| js(&toks(x))).collect(),
+                                    _ => vec![],
+                                };
+                                (head, args)
+                            }
+                            other => (toks(other), vec![]),
+                        };
+                        Some(format!("{{\"n\":{},\"head\":{},\"args\":{}}}", js(&t.ident.to_string()), js(&head), jarr(&args)))
+                    }
+                    _ => None,
+                }).collect();
+                impls.push(format!("{{\"self_ty\":{},\"name\":{},\"trait\":{},\"generics\":{},\"wheres\":{},\"assoc\":{}}}",
+                    js(&toks(&i.self_ty)), js(&name), js(&tr), gp, gw, jarr(&assoc)));
             }
             syn::Item::Mod(m) => {
                 if let Some((_, inner)) = &m.content {
